@@ -196,6 +196,9 @@ def run_engine_check(pid, tier, seed, wd):
         per_cfg = max(3000, 1200000 // max(1, len(cfgs)))
         ba["max_states"] = per_cfg
         bb["max_states"] = per_cfg
+        # ... and the transitions logged per configuration (memory-limited configurations have many more
+        # operations per state): about 20 M transitions in all
+        ba["max_edges"] = bb["max_edges"] = max(8000, 20000000 // max(1, len(cfgs)))
     job = {"groups": [{"cfgs": cfgs_a, "bounds": ba}, {"cfgs": cfgs_b, "bounds": bb}]}
     info["explore_bounds"] = {"ttl=0": ba, "ttl>0": bb}
     # extreme frequency_weight: hits^w overflows in f64 from two hits on, so these configurations are
